@@ -405,7 +405,10 @@ func execChanSeq1(ops []Op, out *[]string) []string {
 					for i, it := range items {
 						if id, ok := c13ChanID(it); ok {
 							if _, made := w.chans[id]; !made {
+								// (a shrunk case may have lost the `make`: the operation is skipped below, and the channel
+								// must not come into being as a side effect of decoding — the Model has never heard of it)
 								valid = false
+								continue
 							}
 						}
 						t.RawSetInt(i+1, w.dec(it))
